@@ -158,6 +158,64 @@ Proof.
   - intros sd x. rewrite L1, L2. apply vrel_swap.
 Qed.
 
+(* ---- scalar identities and distributivity, through the operator dispatch [apply_binop] with the scalar operand as
+   the step-free Stairs the public API builds for it *)
+Lemma result_side_const (f : stairs) c : result_side f (const c (closed f)) = closed f.
+Proof. unfold result_side. destruct (has_steps f); reflexivity. Qed.
+
+Lemma vadd_zero a : vadd a (Some 0) = a.
+Proof. destruct a as [x|]; simpl; [f_equal; ring|reflexivity]. Qed.
+Lemma vmul_one a : vmul a (Some 1) = a.
+Proof. destruct a as [x|]; simpl; [f_equal; ring|reflexivity]. Qed.
+Lemma vsub_self a : vsub a a = vmul a (Some 0).
+Proof. destruct a as [x|]; simpl; [f_equal; ring|reflexivity]. Qed.
+Lemma vmul_distr a b c : vmul a (vadd b c) = vadd (vmul a b) (vmul a c).
+Proof. destruct a as [x|], b as [y|], c as [z|]; simpl; try reflexivity. f_equal. ring. Qed.
+
+(* f + 0 is f *)
+Theorem add_zero (f : stairs) : wf f -> deq (apply_binop (BArith OAdd) f (const (Some 0) (closed f))) f.
+Proof.
+  intros Wf. destruct (apply_binop_spec (BArith OAdd) f (const (Some 0) (closed f)) Wf (wf_const _ _)) as (_ & C1 & L1).
+  split; [rewrite C1; apply result_side_const|]. intros sd x. rewrite L1, lim_const. apply vadd_zero.
+Qed.
+
+(* f * 1 is f *)
+Theorem mul_one (f : stairs) : wf f -> deq (apply_binop (BArith OMul) f (const (Some 1) (closed f))) f.
+Proof.
+  intros Wf. destruct (apply_binop_spec (BArith OMul) f (const (Some 1) (closed f)) Wf (wf_const _ _)) as (_ & C1 & L1).
+  split; [rewrite C1; apply result_side_const|]. intros sd x. rewrite L1, lim_const. apply vmul_one.
+Qed.
+
+(* f - f is f * 0: zero exactly where f is defined, undefined elsewhere *)
+Theorem sub_self (f : stairs) :
+  wf f -> deq (apply_binop (BArith OSub) f f) (apply_binop (BArith OMul) f (const (Some 0) (closed f))).
+Proof.
+  intros Wf. destruct (apply_binop_spec (BArith OSub) f f Wf Wf) as (_ & C1 & L1).
+  destruct (apply_binop_spec (BArith OMul) f (const (Some 0) (closed f)) Wf (wf_const _ _)) as (_ & C2 & L2).
+  split.
+  - rewrite C1, C2, result_side_const. apply result_side_same. reflexivity.
+  - intros sd x. rewrite L1, L2, lim_const. apply vsub_self.
+Qed.
+
+(* f * (g + h) is f * g + f * h *)
+Theorem mul_distributes_over_add (f g h : stairs) :
+  wf f -> wf g -> wf h -> closed f = closed g -> closed g = closed h ->
+  deq (apply_binop (BArith OMul) f (apply_binop (BArith OAdd) g h))
+      (apply_binop (BArith OAdd) (apply_binop (BArith OMul) f g) (apply_binop (BArith OMul) f h)).
+Proof.
+  intros Wf Wg Wh E1 E2.
+  destruct (apply_binop_spec (BArith OAdd) g h Wg Wh) as (W1 & C1 & L1).
+  destruct (apply_binop_spec (BArith OMul) f g Wf Wg) as (W2 & C2 & L2).
+  destruct (apply_binop_spec (BArith OMul) f h Wf Wh) as (W3 & C3 & L3).
+  destruct (apply_binop_spec (BArith OMul) f _ Wf W1) as (_ & C4 & L4).
+  destruct (apply_binop_spec (BArith OAdd) _ _ W2 W3) as (_ & C5 & L5).
+  rewrite (result_side_same g h E2) in C1. rewrite (result_side_same f g E1) in C2.
+  rewrite (result_side_same f h) in C3 by congruence.
+  split.
+  - rewrite C4, C5, result_side_same, result_side_same; congruence.
+  - intros sd x. rewrite L4, L5, L1, L2, L3. apply vmul_distr.
+Qed.
+
 End AlgebraFacts.
 
 Print Assumptions negate_involutive.
@@ -168,3 +226,7 @@ Print Assumptions add_associates.
 Print Assumptions mul_associates.
 Print Assumptions logical_commutes.
 Print Assumptions relational_swaps.
+Print Assumptions add_zero.
+Print Assumptions mul_one.
+Print Assumptions sub_self.
+Print Assumptions mul_distributes_over_add.
